@@ -55,7 +55,12 @@ class Sys(e2.DevSys):
                          REPETITIONS_BASE_DELAY=0.125, CYCLIC_OFFER_DELAY=cfg["cyclic"], ANNOUNCE_TTL=cfg["ttl"],
                          SEND_COLLECTION_TIMEOUT=cfg["collect"],
                          REQUEST_RESPONSE_DELAY_MIN=self.rr[0], REQUEST_RESPONSE_DELAY_MAX=self.rr[1])
-        self.prot = make_sd(self.loop, self.t)
+        if cfg.get("endpoint_cyclic_differs"):
+            # the endpoint's own timings say the opposite about cyclic offers; the instance was built with its own ones
+            import dataclasses
+            self.prot = make_sd(self.loop, dataclasses.replace(self.t, CYCLIC_OFFER_DELAY=0 if cfg["cyclic"] else 1))
+        else:
+            self.prot = make_sd(self.loop, self.t)
         self.ninst = cfg.get("instances", 1)
         self.opts = (hdr.IPv4EndpointOption(ipaddress.IPv4Address("192.0.2.1"), hdr.L4Protocols.UDP, 30501),)
         self.insts = {}
@@ -377,6 +382,8 @@ def extra_cfgs(ctx):
                 rr=(2.0 ** -5, 2.0 ** -4), instances=2) for f in (0.0, 1.0) for cy in (0, 1) for col in (0, C)]
     helper = [dict(sid=sid, window=(0.125, 0.25), frac=0.0, reps=1, cyclic=cy, ttl=3, collect=0,
                    rr=(0.0, 0.0), instances=1, helper=True) for cy in (0, 1)]
+    two += [dict(sid=sid, window=(0.125, 0.25), frac=0.0, reps=1, cyclic=cy, ttl=3, collect=col, rr=(2.0 ** -5, 2.0 ** -4),
+                 instances=1, endpoint_cyclic_differs=True) for cy in (0, 1) for col in (0, C)]
     return two, helper
 
 
